@@ -36,7 +36,7 @@ out.append('Each was produced by a fresh sub-agent that saw only the text of one
            'specific to manifest, and keeps the pinned tests green. Kept only after confirming here: `demo.py` exits 0 on a '
            'clean copy and 1 with `patch.diff`; the 241 baseline tests still pass with the patch (`tests.txt`); then the '
            'checks were run (`meta.json` has the details). Suffix -1/-2: first round (two changes per property); -3: second '
-           'round, run after the first round had been used to strengthen the checks, with the first-round ideas excluded; -4: third round; -5: fourth round; -6: fifth round; -7: sixth round; -8: seventh round; -9: eighth round; -10: last short round (eight properties).\n')
+           'round, run after the first round had been used to strengthen the checks, with the first-round ideas excluded; -4: third round; -5: fourth round; -6: fifth round; -7: sixth round; -8: seventh round; -9: eighth round; -10: last short round of the earlier session (eight properties); the tenth round (all 19 properties, next free index each: -10 or -11) was run in a later session against the finished checks.\n')
 out.append('| id | change (agent\'s summary) | needs | caught by | note |')
 out.append('|---|---|---|---|---|')
 tot = first = 0
@@ -48,6 +48,8 @@ r6tot = r6first = 0
 r7tot = r7first = 0
 r8tot = r8first = 0
 r9tot = r9first = 0
+r10tot = r10first = 0
+ROUND10 = set('C01-10 C02-10 C03-10 C04-11 C05-11 C06-11 C07-10 C08-10 C09-11 C10-10 C11-10 C12-11 C13-10 C14-11 C15-11 C16-11 C17-10 C18-10 C19-10'.split())
 for d in sorted(glob.glob(os.path.join(V, 'seeded', 'C*-*'))):
     mp = os.path.join(d, 'meta.json')
     if not os.path.exists(mp):
@@ -79,7 +81,10 @@ for d in sorted(glob.glob(os.path.join(V, 'seeded', 'C*-*'))):
     if name.endswith('-9'):
         r8tot += 1
         r8first += not missed_first
-    if name.endswith('-10'):
+    if name in ROUND10:
+        r10tot += 1
+        r10first += not missed_first
+    elif name.endswith('-10'):
         r9tot += 1
         r9first += not missed_first
     out.append('| %s | %s | %s | %s | %s |' % (name, m.get('summary', '')[:230].replace('|', '/').replace('\n', ' '),
@@ -88,10 +93,10 @@ for d in sorted(glob.glob(os.path.join(V, 'seeded', 'C*-*'))):
 out.append('\nOf %d seeded changes %d were caught by the target property\'s check as it stood when the change arrived; '
            'every miss led to a generator or oracle extension (never to a loosened check), after which all are caught '
            '(two of them by the neighbouring property that owns the behaviour, see notes). Caught on arrival per round: '
-           'second %d of %d, third %d of %d, fourth %d of %d, fifth %d of %d, sixth %d of %d, seventh %d of %d, eighth %d of %d (two of its sub-agents ended without a result and were re-run), a last short round on the eight most-missed properties %d of %d (each round was asked to avoid all mechanisms of the '
+           'second %d of %d, third %d of %d, fourth %d of %d, fifth %d of %d, sixth %d of %d, seventh %d of %d, eighth %d of %d (two of its sub-agents ended without a result and were re-run), a last short round on the eight most-missed properties %d of %d, tenth round (all 19 properties) %d of %d (each round was asked to avoid all mechanisms of the '
            'earlier rounds, so later rounds probe ever more remote corners: data-dependent shortcuts, histories through '
-           'load_state_dict, aliasing of constructor arguments, batches of millions of samples, autograd / train-eval modes, option containers, process-wide switches, single-orientation images).\n'
-           % (tot, first, r2first, r2tot, r3first, r3tot, r4first, r4tot, r5first, r5tot, r6first, r6tot, r7first, r7tot, r8first, r8tot, r9first, r9tot))
+           'load_state_dict, aliasing of constructor arguments, batches of millions of samples, autograd / train-eval modes, option containers, process-wide switches, single-orientation images, odd tap counts, memory layouts of leaves, same-name wavelet objects, class-level shared state, default-dtype-dependent loaders).\n'
+           % (tot, first, r2first, r2tot, r3first, r3tot, r4first, r4tot, r5first, r5tot, r6first, r6tot, r7first, r7tot, r8first, r8tot, r9first, r9tot, r10first, r10tot))
 # 7.3 behaviour-preserving refactorings
 rp = os.path.join(V, 'refactorings', 'results.txt')
 if os.path.exists(rp):
